@@ -1,0 +1,349 @@
+//! Verification hooks (cargo feature `verif`, off by default).
+//!
+//! Thin, add-only wrappers that expose crate-private entry points - the Python-facing curve
+//! constructor, the tagged `from_json` container, `index_left` and a trace of the FX
+//! triangulation - to an external runtime monitor. Nothing here changes behaviour.
+
+use crate::calendars::{Cal, CalType, Convention, Modifier, NamedCal, UnionCal};
+use crate::curves::curve_py::{Curve, CurveInterpolator};
+use crate::curves::interpolation::utils::index_left;
+use crate::curves::{
+    FlatBackwardInterpolator, FlatForwardInterpolator, LinearInterpolator,
+    LinearZeroRateInterpolator, LogLinearInterpolator, NullInterpolator,
+};
+use crate::dual::{ADOrder, Dual, Dual2, Number};
+use crate::fx::rates::FXRates;
+use crate::json::json_py::DeserializedObj;
+use crate::json::JSON;
+use crate::splines::{PPSpline, PPSplineDual, PPSplineDual2, PPSplineF64};
+use chrono::NaiveDateTime;
+use indexmap::IndexMap;
+
+/// `index_left` on a list of f64 (as exported to Python as `index_left_f64`).
+pub fn index_left_f64(list_input: &[f64], value: &f64) -> usize {
+    index_left(list_input, value, None)
+}
+
+/// `index_left` on a list of i64 (as used on curve node timestamps).
+pub fn index_left_i64(list_input: &[i64], value: &i64) -> usize {
+    index_left(list_input, value, None)
+}
+
+/// Take (and clear) the trace of nodes sampled by the FX triangulation on this thread.
+pub fn fx_take_trace() -> Vec<(usize, i16)> {
+    crate::fx::rates::verif_take_trace()
+}
+
+fn interpolator_by_name(name: &str) -> Option<CurveInterpolator> {
+    match name {
+        "linear" => Some(CurveInterpolator::Linear(LinearInterpolator::new())),
+        "log_linear" => Some(CurveInterpolator::LogLinear(LogLinearInterpolator::new())),
+        "linear_zero_rate" => Some(CurveInterpolator::LinearZeroRate(
+            LinearZeroRateInterpolator::new(),
+        )),
+        "flat_forward" => Some(CurveInterpolator::FlatForward(
+            FlatForwardInterpolator::new(),
+        )),
+        "flat_backward" => Some(CurveInterpolator::FlatBackward(
+            FlatBackwardInterpolator::new(),
+        )),
+        "null" => Some(CurveInterpolator::Null(NullInterpolator::new())),
+        _ => None,
+    }
+}
+
+/// The Python-facing `Curve` object.
+#[derive(Clone)]
+pub struct VerifCurve(pub(crate) Curve);
+
+impl VerifCurve {
+    /// The Python-facing constructor (`Curve.__new__`), with the interpolator given by name.
+    #[allow(clippy::too_many_arguments)]
+    pub fn new(
+        nodes: IndexMap<NaiveDateTime, Number>,
+        interpolation: &str,
+        ad: ADOrder,
+        id: &str,
+        convention: Convention,
+        modifier: Modifier,
+        calendar: CalType,
+        index_base: Option<f64>,
+    ) -> Result<Self, String> {
+        let interpolator = interpolator_by_name(interpolation)
+            .ok_or_else(|| format!("unknown interpolation '{}'", interpolation))?;
+        match Curve::verif_new(
+            nodes,
+            interpolator,
+            ad,
+            id.to_string(),
+            convention,
+            modifier,
+            calendar,
+            index_base,
+        ) {
+            Ok(c) => Ok(VerifCurve(c)),
+            Err(_) => Err("Curve constructor returned an error".to_string()),
+        }
+    }
+
+    pub fn value(&self, date: &NaiveDateTime) -> Number {
+        self.0.verif_getitem(*date)
+    }
+
+    pub fn index_value(&self, date: &NaiveDateTime) -> Result<Number, ()> {
+        self.0.verif_index_value(*date).map_err(|_| ())
+    }
+
+    pub fn node_index(&self, timestamp: i64) -> usize {
+        self.0.verif_inner().node_index(timestamp)
+    }
+
+    pub fn set_ad_order(&mut self, ad: ADOrder) {
+        let _ = self.0.verif_set_ad_order(ad);
+    }
+
+    pub fn ad(&self) -> ADOrder {
+        self.0.verif_ad()
+    }
+
+    pub fn id(&self) -> String {
+        self.0.verif_inner().id.clone()
+    }
+
+    pub fn interpolation(&self) -> String {
+        self.0.verif_interpolation()
+    }
+
+    pub fn index_base(&self) -> Option<f64> {
+        self.0.verif_inner().index_base
+    }
+
+    pub fn calendar(&self) -> CalType {
+        self.0.verif_inner().calendar.clone()
+    }
+
+    pub fn convention(&self) -> Convention {
+        self.0.verif_inner().convention
+    }
+
+    pub fn modifier(&self) -> Modifier {
+        self.0.verif_inner().modifier
+    }
+
+    pub fn nodes(&self) -> IndexMap<NaiveDateTime, Number> {
+        self.0.verif_nodes()
+    }
+
+    pub fn eq(&self, other: &VerifCurve) -> bool {
+        self.0.verif_eq(&other.0)
+    }
+
+    /// The tagged JSON text the Python object's `to_json` emits.
+    pub fn to_json(&self) -> Result<String, ()> {
+        self.0.verif_to_json().map_err(|_| ())
+    }
+
+    /// Untagged JSON through the `JSON` trait.
+    pub fn to_json_plain(&self) -> Result<String, String> {
+        self.0.to_json().map_err(|e| e.to_string())
+    }
+
+    pub fn from_json_plain(json: &str) -> Result<Self, String> {
+        Curve::from_json(json)
+            .map(VerifCurve)
+            .map_err(|e| e.to_string())
+    }
+
+    /// The byte state of `__getstate__`.
+    pub fn getstate_bytes(&self) -> Vec<u8> {
+        self.0.verif_getstate()
+    }
+
+    /// The object `__setstate__` restores from a byte state.
+    pub fn from_state_bytes(state: &[u8]) -> Result<Self, String> {
+        Curve::verif_from_state(state)
+            .map(VerifCurve)
+            .map_err(|e| e.to_string())
+    }
+}
+
+/// The tagged container behind the Python `from_json` function.
+pub struct VerifObj(pub(crate) DeserializedObj);
+
+impl VerifObj {
+    /// The body of the Python-exposed `from_json`.
+    pub fn from_json(json: &str) -> Result<Self, String> {
+        DeserializedObj::from_json(json)
+            .map(VerifObj)
+            .map_err(|e| e.to_string())
+    }
+
+    pub fn to_json(&self) -> Result<String, String> {
+        self.0.to_json().map_err(|e| e.to_string())
+    }
+
+    pub fn kind(&self) -> &'static str {
+        match &self.0 {
+            DeserializedObj::Dual(_) => "Dual",
+            DeserializedObj::Dual2(_) => "Dual2",
+            DeserializedObj::Cal(_) => "Cal",
+            DeserializedObj::UnionCal(_) => "UnionCal",
+            DeserializedObj::NamedCal(_) => "NamedCal",
+            DeserializedObj::FXRates(_) => "FXRates",
+            DeserializedObj::Curve(_) => "Curve",
+            DeserializedObj::PPSplineF64(_) => "PPSplineF64",
+            DeserializedObj::PPSplineDual(_) => "PPSplineDual",
+            DeserializedObj::PPSplineDual2(_) => "PPSplineDual2",
+        }
+    }
+
+    pub fn wrap_dual(v: Dual) -> Self {
+        VerifObj(DeserializedObj::Dual(v))
+    }
+    pub fn wrap_dual2(v: Dual2) -> Self {
+        VerifObj(DeserializedObj::Dual2(v))
+    }
+    pub fn wrap_cal(v: Cal) -> Self {
+        VerifObj(DeserializedObj::Cal(v))
+    }
+    pub fn wrap_union_cal(v: UnionCal) -> Self {
+        VerifObj(DeserializedObj::UnionCal(v))
+    }
+    pub fn wrap_named_cal(v: NamedCal) -> Self {
+        VerifObj(DeserializedObj::NamedCal(v))
+    }
+    pub fn wrap_fxrates(v: FXRates) -> Self {
+        VerifObj(DeserializedObj::FXRates(v))
+    }
+    pub fn wrap_curve(v: VerifCurve) -> Self {
+        VerifObj(DeserializedObj::Curve(v.0))
+    }
+    pub fn wrap_spline_f64(v: PPSpline<f64>) -> Self {
+        VerifObj(DeserializedObj::PPSplineF64(PPSplineF64 { inner: v }))
+    }
+    pub fn wrap_spline_dual(v: PPSpline<Dual>) -> Self {
+        VerifObj(DeserializedObj::PPSplineDual(PPSplineDual { inner: v }))
+    }
+    pub fn wrap_spline_dual2(v: PPSpline<Dual2>) -> Self {
+        VerifObj(DeserializedObj::PPSplineDual2(PPSplineDual2 { inner: v }))
+    }
+
+    pub fn as_dual(&self) -> Option<&Dual> {
+        match &self.0 {
+            DeserializedObj::Dual(v) => Some(v),
+            _ => None,
+        }
+    }
+    pub fn as_dual2(&self) -> Option<&Dual2> {
+        match &self.0 {
+            DeserializedObj::Dual2(v) => Some(v),
+            _ => None,
+        }
+    }
+    pub fn as_cal(&self) -> Option<&Cal> {
+        match &self.0 {
+            DeserializedObj::Cal(v) => Some(v),
+            _ => None,
+        }
+    }
+    pub fn as_union_cal(&self) -> Option<&UnionCal> {
+        match &self.0 {
+            DeserializedObj::UnionCal(v) => Some(v),
+            _ => None,
+        }
+    }
+    pub fn as_named_cal(&self) -> Option<&NamedCal> {
+        match &self.0 {
+            DeserializedObj::NamedCal(v) => Some(v),
+            _ => None,
+        }
+    }
+    pub fn as_fxrates(&self) -> Option<&FXRates> {
+        match &self.0 {
+            DeserializedObj::FXRates(v) => Some(v),
+            _ => None,
+        }
+    }
+    pub fn as_curve(&self) -> Option<VerifCurve> {
+        match &self.0 {
+            DeserializedObj::Curve(v) => Some(VerifCurve(v.clone())),
+            _ => None,
+        }
+    }
+    pub fn as_spline_f64(&self) -> Option<&PPSpline<f64>> {
+        match &self.0 {
+            DeserializedObj::PPSplineF64(v) => Some(&v.inner),
+            _ => None,
+        }
+    }
+    pub fn as_spline_dual(&self) -> Option<&PPSpline<Dual>> {
+        match &self.0 {
+            DeserializedObj::PPSplineDual(v) => Some(&v.inner),
+            _ => None,
+        }
+    }
+    pub fn as_spline_dual2(&self) -> Option<&PPSpline<Dual2>> {
+        match &self.0 {
+            DeserializedObj::PPSplineDual2(v) => Some(&v.inner),
+            _ => None,
+        }
+    }
+}
+
+/// Read-only views of crate-private state, used by monitors to check shape invariants.
+pub fn fxrates_quotes(fx: &FXRates) -> Vec<(String, Number, Option<NaiveDateTime>)> {
+    fx.fx_rates
+        .iter()
+        .map(|r| (format!("{}", r.pair), r.rate.clone(), r.settlement))
+        .collect()
+}
+
+pub fn fxrates_currencies(fx: &FXRates) -> Vec<String> {
+    fx.currencies.iter().map(|c| c.name.to_string()).collect()
+}
+
+pub fn fxrates_ad(fx: &FXRates) -> ADOrder {
+    match fx.fx_array {
+        crate::dual::NumberArray2::F64(_) => ADOrder::Zero,
+        crate::dual::NumberArray2::Dual(_) => ADOrder::One,
+        crate::dual::NumberArray2::Dual2(_) => ADOrder::Two,
+    }
+}
+
+pub fn fxrates_array_dim(fx: &FXRates) -> (usize, usize) {
+    match &fx.fx_array {
+        crate::dual::NumberArray2::F64(a) => a.dim(),
+        crate::dual::NumberArray2::Dual(a) => a.dim(),
+        crate::dual::NumberArray2::Dual2(a) => a.dim(),
+    }
+}
+
+pub fn ccy_name(c: &crate::fx::rates::Ccy) -> String {
+    c.name.to_string()
+}
+
+pub fn named_cal_name(c: &NamedCal) -> String {
+    c.name.clone()
+}
+
+pub fn named_cal_union(c: &NamedCal) -> UnionCal {
+    c.union_cal.clone()
+}
+
+pub fn cal_holidays(c: &Cal) -> Vec<NaiveDateTime> {
+    c.holidays.iter().cloned().collect()
+}
+
+pub fn cal_week_mask(c: &Cal) -> Vec<u8> {
+    let mut v: Vec<u8> = c
+        .week_mask
+        .iter()
+        .map(|w| w.num_days_from_monday() as u8)
+        .collect();
+    v.sort();
+    v
+}
+
+pub fn union_cal_parts(c: &UnionCal) -> (Vec<Cal>, Option<Vec<Cal>>) {
+    (c.calendars.clone(), c.settlement_calendars.clone())
+}
